@@ -41,7 +41,7 @@ PROPS = {
         "design_ref": "DESIGN.md §3.14 FRESHNAME/PREC, §3.21, §4 C17",
     },
     "C02": {
-        "rules": ["EXH", "PREC", "DIVMOD", "ALGID", "CONDSPEC", "FRESHNAME", "ENVNAME", "SCALARREF", "WINDOWHOOK", "BACKPIPE", "WINALIAS@live", "FREEONCE"],
+        "rules": ["EXH", "PREC", "TOKENGLUE", "DIVMOD", "ALGID", "CONDSPEC", "FRESHNAME", "ENVNAME", "SCALARREF", "WINDOWHOOK", "BACKPIPE", "WINALIAS@live", "FREEONCE"],
         "thorough": [],
         "technique": "static analysis: exhaustive-lowering, C-precedence table embedding, sign-proof dominance for / and %, sibling agreement on by-reference scalars, window-hook call rule",
         "level_text": "Structural clauses of code generation, decided for all programs from the source: lowering dispatches are exhaustive; the C "
@@ -56,7 +56,7 @@ PROPS = {
         "design_ref": "DESIGN.md §3.14, §4 C02",
     },
     "C15": {
-        "rules": ["BACKPIPE", "TRAV@C15", "TRAVBASE", "MEMGATE", "CALLBOUNDARY", "TYPETABLES", "CONDSPEC", "PRECSOURCE", "BASEKEY", "ENVNAME", "DECLUSESYNC", "EXH", "FRESHNAME"],
+        "rules": ["BACKPIPE", "TRAV@C15", "TRAVBASE", "MEMGATE", "CALLBOUNDARY", "TYPETABLES", "CONDSPEC", "PRECSOURCE", "BASEKEY", "ENVNAME", "TOKENGLUE", "DECLUSESYNC", "EXH", "FRESHNAME"],
         "thorough": [],
         "technique": "static analysis: pipeline def-use chain, traversal completeness of the global collectors, gate-dominance and call-boundary checks, type-table agreement",
         "level_text": "Structural clauses: every compiled procedure (transitively) passes Parallel/Precision/Window/Memory analysis in that order before "
